@@ -42,12 +42,13 @@ EXPLANATION = (
 
 def run_one(s, compatible, attribute):
     import selfies as sf
+    from harness import watchdog
     before = sf.get_semantic_constraints()
     t0 = time.time()
     try:
         with warnings.catch_warnings():
             warnings.simplefilter('ignore')
-            r = sf.decoder(s, compatible=compatible, attribute=attribute)
+            r = watchdog.call(lambda: sf.decoder(s, compatible=compatible, attribute=attribute), 20)
         res = ('ok',)
         if attribute and not (isinstance(r, tuple) and len(r) == 2 and isinstance(r[0], str)):
             res = ('bad-result', repr(r)[:100])
@@ -55,6 +56,9 @@ def run_one(s, compatible, attribute):
             res = ('bad-result', repr(r)[:100])
     except sf.DecoderError:
         res = ('DecoderError',)
+    except watchdog.Hang:
+        watchdog.note_hang()
+        return ('slow', 'no result after 20 s')
     except BaseException as e:
         res = ('escaped', type(e).__name__, str(e)[:120])
     dt = time.time() - t0
@@ -68,7 +72,10 @@ def run_one(s, compatible, attribute):
 def _work(job):
     strings = job
     n, bad, nt = 0, [], set()
+    from harness import watchdog
     for s in strings:
+        if watchdog.hang_seen():
+            break       # a call of this run did not return: reported; further hanging inputs would only cost time
         for comp in (False, True):
             for attr in (False, True):
                 n += 1
@@ -120,6 +127,8 @@ def floor(ctx):
     import selfies as sf
     from harness.par import pmap, chunks
     sf.set_semantic_constraints('default')
+    from harness import watchdog
+    watchdog.reset()
     strings = domain(ctx.tier, ctx.seed)
     strings = strings[-10:] + strings[:-10]
     res = pmap(_work, [[x] for x in strings[:10]] + chunks(strings[10:], 48))
